@@ -195,6 +195,15 @@ func discharge(f *FnVC, o dischargeOpts, stats *runStats) {
 				if best.verdict != "unsat" && best.verdict != "sat" {
 					best, _ = race(file, o.timeoutS, o.seed, false, nil)
 				}
+				// solver incompleteness on quantified goals depends on the random seed: an 'unknown' is retried with
+				// two other seeds (any 'unsat' is a proof; 'sat' is never produced by retrying harder)
+				for extra := 1; extra <= 2 && !ob.Cover && best.verdict != "unsat" && best.verdict != "sat"; extra++ {
+					r2, _ := race(file, o.timeoutS, o.seed+1000*extra, false, nil)
+					if r2.verdict == "unsat" || r2.verdict == "sat" {
+						best = r2
+						best.solver += fmt.Sprintf(" (seed+%d)", 1000*extra)
+					}
+				}
 			} else {
 				best, _ = race(file, o.timeoutS, o.seed, true, nil)
 			}
